@@ -72,11 +72,12 @@ CLAIMED.update({
 
 CLAIMED.update({
     "C16": ("§4 C16", "decides: ZRANK.recursion (both copies), WORLD.literals, ZRANK.cache, ZRANK.pure, FACT.shape (both builders), partition "
-                      "mode, ZRANK.refuse, PART.* on `consistency`. Not decided: equality with the operator's answers, solver",
+                      "mode, ZRANK.refuse, RANK.min and ACCEPT.decision (acceptance through formula ranks), PART.* on `consistency`. Not decided: equality with the operator's answers, solver",
             "abstract interpretation (solver scopes, decision table, cache typestate) + sibling cross-check"),
     "C17": ("§4 C17", "decides four clauses: CREP.rank, KEY.no-positional between impacts / η names / conditionals, CHECK.three-way and the "
-                      "objectives at the constructor, C.relations and C.empty-minimum of the solved system. Not decided: Pareto minimality, "
-                      "termination of the front enumeration, relation to c-inference",
+                      "objectives at the constructor, C.relations and C.empty-minimum of the solved system, RANK.min / ACCEPT.decision, and the shape of "
+                      "the front enumeration (solver scope, objectives, CHECK.three-way, MODEL.extract on solve_pareto_front). Not decided: "
+                      "Pareto minimality, termination of the front enumeration, relation to c-inference",
             "abstract interpretation + provenance qualifiers of indices"),
     "C18": ("§4 C18", "decides: RANK.min, ACCEPT.decision, MARG.bits, COND.filter, TPO.order, WORLD.literals. Assumes: solver, BitVector",
             "abstract interpretation (accumulator update tables, decision tables, key construction)"),
